@@ -1,0 +1,36 @@
+//go:build verif
+
+// Contracts for the deductive checks in /verif (comment-only; not part of normal builds).
+
+package snapshot
+
+//@ immutable Manager.ctx, Manager.managers, Manager.datatypeDoc, Manager.collectionDoc
+
+//@ pred mgrWF(m *Manager) = m.ctx != nil && m.managers != nil && m.managers.Mongo != nil && m.managers.Mongo.MongoCollections != nil && m.datatypeDoc != nil && m.collectionDoc != nil
+
+// GetLatestDatatype rebuilds the datatype from the latest stored snapshot plus EXACTLY the
+// operations stored after it, each handed over once, and reports the version it reached (C11, C10).
+//@ func (*Manager).GetLatestDatatype
+//@   mode wrap
+//@   props C11 C10
+//@   requires mgrWF(its) && G.stored < 4611686018427387904
+//@   ensures[new-datatype-is-empty] old(its.datatypeDoc.DUID) == "" && result2 == nil ==> result1 == 0 && G.receiveCalls == old(G.receiveCalls)
+//@   ensures[replays-exactly-the-later-operations] old(its.datatypeDoc.DUID) != "" && result2 == nil ==> G.lastFrom == G.snapSseq + 1
+//@   ensures[version-is-the-end-of-the-log] old(its.datatypeDoc.DUID) != "" && result2 == nil ==> result1 == G.stored
+//@   ensures[later-operations-applied-once] old(its.datatypeDoc.DUID) != "" && result2 == nil ==> (G.snapSseq < G.stored ? G.receiveCalls == old(G.receiveCalls) + 1 && G.lastReceived == G.stored - G.snapSseq : G.receiveCalls == old(G.receiveCalls))
+//@   ensures[kind-follows-the-stored-type] old(its.datatypeDoc.Type) == model.dtTypeName(model.TypeOfDatatype_DOCUMENT) && result0 != nil ==> result0.(orda.Document)
+//@   ensures[result-or-error] (result2 == nil) == (result0 != nil)
+//@   ensures[ghost-db-untouched] G.stored == old(G.stored) && G.snapInserts == old(G.snapInserts) && G.realInserts == old(G.realInserts) && G.held == old(G.held)
+//@   modifies *
+
+// UpdateSnapshot stores the rebuilt state twice under the SAME version: as snapshot document and
+// as the user-visible document; nothing is stored when it cannot take its lock or rebuilding fails.
+//@ func (*Manager).UpdateSnapshot
+//@   mode wrap
+//@   props C11
+//@   requires mgrWF(its) && G.stored < 4611686018427387904 && its.datatypeDoc.DUID != ""
+//@   requires[doc-not-rewritten] true
+//@   ensures[both-stores-same-version] result == nil ==> G.snapInserts == old(G.snapInserts) + 1 && G.realInserts == old(G.realInserts) + 1 && G.insSnapSseq == G.stored && G.insRealVer == G.stored
+//@   ensures[failure-stores-at-most-the-snapshot] result != nil ==> G.realInserts == old(G.realInserts)
+//@   ensures[lock-released] G.held == old(G.held)
+//@   modifies *
